@@ -55,7 +55,7 @@ CHECKS = {
         "engine": "benum", "level": "fault_enumeration",
         "technique": "exhaustive enumeration of OS fault plans on the real Writer (every byte offset via RLIMIT_FSIZE and interposed write/fwrite with ENOSPC/EIO, every n-th write/fsync/close/fwrite/fflush/fclose failing, EINTR once, every short-write length, encoder failure at every position) x formats x compressions x fsync x histories in forked children; plus stateless schedule exploration (vsched, <= 1|2 deviations) of the Writer with a failing mock compressor / encoder",
         "text": "{xml, opl, pbf} x {none, gz, bz2} x fsync {no, yes} x five write histories x queue/pool sizes x fast|paced producer: the first write reaching every byte offset of the output fails (kernel EFBIG through RLIMIT_FSIZE; ENOSPC/EIO through interposed write/fwrite), every n-th write/fsync/close/fwrite/fflush/fclose fails, EINTR once, short writes of every length, the OPL encoder throws at every way position; either a call throws or the file is complete (own inflate/bzip2 framing check + Reader decode equals the objects handed over) and close() returns its size; a fired injector followed by success is 'error-lost'; a Writer in error state must refuse data; threads must finish. The vsched harness explores all schedules with <= 1|2 deviations of Writer + failing mock compressor.",
-        "note": "bzip2 gets ENOSPC/EIO at the stdio level only (write() inside glibc's stdio cannot be interposed; the kernel EFBIG fault covers that path); quick strides the offsets of the larger histories (boundaries +-1 always included), thorough enumerates every offset for the small histories. Descriptor/memory leaks on error paths are counted, not judged.",
+        "note": "Encoder failure exists for OPL only (a tag value ending in an incomplete UTF-8 sequence; the XML and PBF encoders cannot throw on the data handed over). bzip2 gets ENOSPC/EIO at the stdio level only (write() inside glibc's stdio cannot be interposed; the kernel EFBIG fault covers that path); quick strides the offsets of the larger histories (boundaries +-1 always included), thorough enumerates every offset for the small histories. Descriptor/memory leaks on error paths are counted, not judged.",
     },
     "C09": {
         "engine": "benum", "level": "fault_enumeration",
